@@ -414,7 +414,7 @@ def r5_level_addition(ctx):
                   expected=want.key())
         ctx.check(conv_ok, U, f"LogarithmicUnitType.{name}", "right operand is brought to the left operand's unit first")
         g = " ;; ".join(guards)
-        ctx.check("self.baseunits1.dimensions != self.baseunits2.dimensions" in g, U, f"LogarithmicUnitType.{name}",
+        ctx.form("self.baseunits1.dimensions != self.baseunits2.dimensions" in g, U, f"LogarithmicUnitType.{name}",
                   "different dimensions are refused", detail=guards)
         ctx.check("self.baseunits1.units != self.baseunits2.units" in g, U, f"LogarithmicUnitType.{name}",
                   "different level units are refused", detail=guards)
